@@ -68,7 +68,7 @@ def run(chk):
     # -- EMA helper: the module-level function whose result is stored into module.<x>_scale
     ema_calls = []
     for fn in (pre, post):
-        for p in paths_of(fn):
+        for p in paths_of(fn, inline_helpers="methods"):
             for ef in p.effects:
                 if ef[0] == "store" and ef[2] in ("input_scale", "output_scale") and isinstance(ef[3], ast.Call) and isinstance(ef[3].func, ast.Name):
                     r = repo.resolve(mi, ef[3].func.id)
@@ -134,7 +134,7 @@ def guard_facts(p):
 def hook_paths(chk, repo, mi, fn, buf, rule):
     qn = f"Calibration.{fn.name}"
     n_store = 0
-    for p in paths_of(fn):
+    for p in paths_of(fn, inline_helpers="methods"):
         f = guard_facts(p)
         guarded = any(f.get(g) is True for g in ("isinstance(module, QModuleMixin)", "isinstance(module, (QModuleMixin,))")) and f.get("module.activation_qtype is None") is False
         for ef in p.effects:
